@@ -316,14 +316,14 @@ func verifSpecCL(lowered string) primitive.ConsistencyLevel {
 
 // client.execute: either one error frame to the client (no usable session) or one request started,
 // carrying the client's stream id, version and connection.
-//@ func proxy.client.execute [C01, C02, C09]
+//@ func proxy.client.execute [C01, C02, C03, C09]
 //@   requires c != nil && raw != nil && raw.Header != nil && body != nil && c.proxy != nil && c.conn != nil && c.codec != nil && inv(c.proxy)
 //@   event c.$executed
 //@   ensures one-outcome: (c.$sent - old(c.$sent)) + ($reqStarted - old($reqStarted)) == 1
 //@   ensures c.$sent >= old(c.$sent) && $reqStarted >= old($reqStarted)
 //@   ensures request-identity: $reqStarted == old($reqStarted) + 1 ==> fresh($lastReq) && $lastReq.client == c && $lastReq.stream == old(raw.Header.StreamId) && $lastReq.version == old(raw.Header.Version)
 //@   ensures error-identity: c.$sent == old(c.$sent) + 1 ==> $lastClient == c && $lastStream == old(raw.Header.StreamId) && $lastVersion == old(raw.Header.Version) && typeis($lastMsg, *message.ServerError)
-//@   modifies *, c.$sent, $reqStarted, $lastReq, $lastMsg, $lastStream, $lastVersion, $lastClient, $sends, $convertedBody
+//@   modifies c.proxy.sessions[*], as(body.Message, *codecs.PartialQuery).Consistency, as(body.Message, *codecs.PartialExecute).Consistency, as(body.Message, *codecs.PartialBatch).Consistency, raw.Header.BodyLength, c.$sent, $reqStarted, $lastReq, $lastMsg, $lastStream, $lastVersion, $lastClient, $sends, $convertedBody
 
 // ---------------------------------------------------------------------------------------------
 // C09 (routing), C13 (handshake), C01 (one answer per decoded frame): the client reader
